@@ -360,6 +360,9 @@ func combos(rt route) []sv {
 			if v == "badchunk" && rt.name != "PutObject" && rt.name != "PutObjectPart" {
 				continue
 			}
+			if v == "valid" && rt.name == "PutObjectTagging" {
+				continue // the tagging handler does not decode aws-chunked bodies; streaming is an upload-only scheme
+			}
 			out = append(out, sv{"stream", v})
 		}
 	}
@@ -378,6 +381,11 @@ type built struct {
 	signer   *ident // identity whose valid signature the request carries; nil = none
 	isAnon   bool   // carries no authentication information at all
 	policyOK bool   // PostPolicy: the form carries a valid policy signature of signer
+	// streaming upload whose seed signature is valid but one chunk signature is not:
+	// plain is the payload, okPrefix the number of bytes in the chunks before the bad one
+	badChunk bool
+	plain    []byte
+	okPrefix int
 }
 
 const region = "us-east-1"
@@ -422,7 +430,7 @@ func apply(rt route, base *s3kit.Req, altPath string, c sv, id ident, fx *fixtur
 	}
 	if rt.name == "PostPolicy" && c.style != "post" {
 		// a well-formed upload form without any signature fields
-		f := &s3kit.PostForm{Fields: []s3kit.KV{{K: "key", V: fx.key("posted")}}, File: []byte("POSTED-" + fx.tok), Name: "upload.bin"}
+		f := &s3kit.PostForm{Fields: []s3kit.KV{{K: "key", V: "/" + fx.key("posted")}}, File: []byte("POSTED-" + fx.tok), Name: "upload.bin"}
 		ct, body := f.Encode()
 		r.Set("Content-Type", ct)
 		r.Body = body
@@ -528,6 +536,7 @@ func apply(rt route, base *s3kit.Req, altPath string, c sv, id ident, fx *fixtur
 				if len(r.Body) > chunk {
 					corrupt = 1
 				}
+				out.signer, out.badChunk, out.plain, out.okPrefix = &id, true, append([]byte(nil), r.Body...), corrupt*chunk
 			}
 			s3kit.SignV4Streaming(r, signWith, now, region, chunk, corrupt)
 			if c.variant == "tamper-path" {
@@ -542,7 +551,7 @@ func apply(rt route, base *s3kit.Req, altPath string, c sv, id ident, fx *fixtur
 			r.Set("Content-Type", "multipart/form-data; boundary=xyz")
 			r.Set("Authorization", "Basic dXNlcjpwYXNz")
 		default:
-			key := fx.key("posted")
+			key := "/" + fx.key("posted") // leading slash: the handler appends the key to the bucket name as is (see C29)
 			data := []byte("POSTED-" + fx.tok + strings.Repeat("f", 40))
 			expiration := now.Add(10 * time.Minute)
 			polBucket, polKey := fx.bucket, key
@@ -552,7 +561,7 @@ func apply(rt route, base *s3kit.Req, altPath string, c sv, id ident, fx *fixtur
 			case "other-bucket":
 				polBucket = otherBucket(fx.bucket)
 			case "other-key":
-				polKey = fx.key("elsewhere")
+				polKey = "/" + fx.key("elsewhere")
 			}
 			var f *s3kit.PostForm
 			if strings.HasSuffix(c.variant, "-v2") {
@@ -685,9 +694,13 @@ var authCodes = map[string]bool{"AccessDenied": true, "SignatureDoesNotMatch": t
 	"AuthorizationQueryParametersError": true, "XAmzContentSHA256Mismatch": true, "MethodNotAllowed": true}
 
 // deniedClass returns the class of a proper refusal, or "" if the response is not one.
-func deniedClass(rt route, method string, resp *s3kit.Resp) string {
+func deniedClass(rt route, req *s3kit.Req, resp *s3kit.Resp) string {
+	method := req.Method
 	if resp.Status < 300 {
 		return ""
+	}
+	if resp.Status == 405 {
+		return "denied-405" // no route for this method: answered by the router itself
 	}
 	if method == "HEAD" {
 		if resp.Status == 400 || resp.Status == 403 || resp.Status == 501 || resp.Status == 405 {
@@ -699,7 +712,8 @@ func deniedClass(rt route, method string, resp *s3kit.Resp) string {
 	if authCodes[code] {
 		return "denied-" + code
 	}
-	if rt.name == "PostPolicy" {
+	if rt.name == "PostPolicy" || (method == "POST" && strings.Contains(req.Get("Content-Type"), "multipart/form-data")) {
+		// the POST policy handler parses the form and checks the policy before it verifies the signature
 		if resp.Status == 307 || code == "MalformedPOSTRequest" || code == "PostPolicyInvalidKeyName" {
 			return fmt.Sprintf("denied-post-%d%s", resp.Status, code)
 		}
@@ -786,6 +800,23 @@ func runCase(t interface {
 		// the server dropped the connection without an answer: nothing was returned; still check the namespace
 		resp = &s3kit.Resp{Status: 599}
 	}
+	if allowed && b.badChunk {
+		// The seed signature is valid and permitted, so the statement lets the request
+		// through; but bytes of a chunk whose signature is wrong are not authenticated
+		// and must not be stored.
+		target := "/buckets/" + fx.bucket + "/" + fx.key("put")
+		if rt.name == "PutObjectPart" {
+			target = "/buckets/" + fx.bucket + "/.uploads/up-" + fx.tok + "/0002.part"
+		}
+		got, ok, gerr := fl.GetFile(target)
+		if gerr != nil {
+			return desc, false, "", "", fmt.Sprintf("INCONCLUSIVE reading %s: %v", target, gerr)
+		}
+		if ok && (len(got) > b.okPrefix || string(got) != string(b.plain[:len(got)])) {
+			return desc, true, "", "", fmt.Sprintf("streaming upload with a wrong chunk signature stored %d bytes %q (only the first %d bytes were signed correctly): %d | %s", len(got), got, b.okPrefix, resp.Status, reqText)
+		}
+		return desc, true, fmt.Sprintf("badchunk-%d-stored=%v", resp.Status, ok), "", ""
+	}
 	if allowed {
 		if resp.Status >= 300 {
 			return desc, false, "", "", fmt.Sprintf("INCONCLUSIVE harness: valid request by permitted identity %s was not accepted: %d %s | %s", who, resp.Status, resp.ErrCode(), reqText)
@@ -821,7 +852,7 @@ func runCase(t interface {
 	}
 	dc := "denied-noanswer"
 	if resp.Status != 599 {
-		dc = deniedClass(rt, b.req.Method, resp)
+		dc = deniedClass(rt, b.req, resp)
 	}
 	if dc == "" {
 		body := string(resp.Body)
